@@ -453,6 +453,12 @@ class Sim(object):
                         fallbacks = None
                     elif sp.get('fallbacksAsFunction'):
                         fallbacks = (lambda l: (lambda *a, **k: list(l)))(fb)
+                    elif sp.get('fallbacksShape') == 'tuple':
+                        fallbacks = tuple(fb)
+                    elif sp.get('fallbacksShape') == 'keys':
+                        fallbacks = dict((a, None) for a in fb).keys()      # the keys of a rename map (ordered)
+                    elif sp.get('fallbacksShape') == 'frozenset' and len(fb) == 1:
+                        fallbacks = frozenset(fb)
                     else:
                         fallbacks = list(fb)
                     sub = sp.get('substitute')
@@ -647,7 +653,10 @@ class Sim(object):
                 continue
             if run['run'] == 'op':
                 target = cls if cspec.get('classLevel') else cls()
-                end = self.end_of(lambda: target.execute(script, **self.op_kwargs(run)))
+                if run.get('kwOnly') and not run.get('enabled') and not cspec.get('classLevel'):
+                    end = self.end_of(lambda: type(target).execute(self=target, script=script, **self.op_kwargs(run)))
+                else:
+                    end = self.end_of(lambda: target.execute(script, **self.op_kwargs(run)))
                 journal = ctx.journal
                 outcomes = ctx.outcomes
                 identity_ok = ctx.identity_ok
